@@ -512,14 +512,8 @@ func (c *Ctx) loopSkipsOnlyIgnored(fn *ssa.Function, call *ssa.Call, hdr *ssa.Ba
 			if neg {
 				truth = !truth
 			}
-			if cl, ok := v.(*ssa.Call); ok {
-				if o := CalleeObj(cl); o != nil && o.Pkg() != nil && o.Pkg().Path() == "errors" && o.Name() == "Is" && len(cl.Call.Args) == 2 {
-					if u, ok := cl.Call.Args[1].(*ssa.UnOp); ok {
-						if g, ok := u.X.(*ssa.Global); ok && ignored != nil && g.Object() == ignored && !truth {
-							guarded = true
-						}
-					}
-				}
+			if cl, ok := v.(*ssa.Call); ok && !truth && isIgnoredSentinelTest(cl, ignored, 0) {
+				guarded = true
 			}
 		}
 		endsInReturn := false
@@ -1012,4 +1006,33 @@ func successAvoidsLoop(fn *ssa.Function, hdr *ssa.BasicBlock) ssa.Instruction {
 		}
 	}
 	return found
+}
+
+// isIgnoredSentinelTest: cl is errors.Is(x, util.ErrIgnoredOption), or a call of a one-line helper of the library
+// that returns exactly that test of its parameter.
+func isIgnoredSentinelTest(cl *ssa.Call, ignored *types.Var, depth int) bool {
+	if ignored == nil || depth > 1 {
+		return false
+	}
+	if o := CalleeObj(cl); o != nil && o.Pkg() != nil && o.Pkg().Path() == "errors" && o.Name() == "Is" && len(cl.Call.Args) == 2 {
+		if u, ok := cl.Call.Args[1].(*ssa.UnOp); ok {
+			if g, ok := u.X.(*ssa.Global); ok && g.Object() == ignored {
+				return true
+			}
+		}
+		return false
+	}
+	h := cl.Call.StaticCallee()
+	if h == nil || h.Pkg == nil || !isLibPkgPath(h.Pkg.Pkg.Path()) || len(h.Blocks) != 1 || len(h.Params) != 1 || len(cl.Call.Args) != 1 {
+		return false
+	}
+	ok := false
+	allInstrs(h, func(in ssa.Instruction) {
+		if ret, isRet := in.(*ssa.Return); isRet && len(ret.Results) == 1 {
+			if inner, isCall := ret.Results[0].(*ssa.Call); isCall && len(inner.Call.Args) == 2 && inner.Call.Args[0] == ssa.Value(h.Params[0]) && isIgnoredSentinelTest(inner, ignored, depth+1) {
+				ok = true
+			}
+		}
+	})
+	return ok
 }
